@@ -15,317 +15,316 @@ func init() { register("C03", ruleC03) }
 func ruleC03(c *Ctx) {
 	c.Decided = []string{
 		"MAPORDER: genbank.Build and BuildFeatureString emit no text in map iteration order",
-		"FIELDMAP-W: every field the reader fills is read by the writer and emitted under the keyword the reader dispatches on (incl. the two-space sub-keyword indent); each optional reference line depends only on its own field being non-empty; exceptions: Reference.Index (regenerated as ordinal), Locus.SequenceCoding (literal bp), Feature.ParentSequence (link)",
-		"LAYOUT: key field padded to 12 = continuation indent; feature key at column 5, padded to 16, location/qualifiers at column 21; qualifier lines are 21 spaces + /key=\"value\"; ORIGIN 60 per line, 10 per block, number right-aligned in 9; terminator //; FEATURES header before the first feature; wrap width <= 80-12",
+		"FIELDMAP-W: every field the reader fills is written, somewhere in Build's family, under the keyword the reader dispatches on (incl. the two-space sub-keyword indent) and carries that very field; an optional line depends only on its own field; the LOCUS line carries name, length, molecule type, topology, division and date; REFERENCE header = ordinal + Range; Other[k] under k; every feature written",
+		"LAYOUT: constants audit – keyword pad width = continuation indent = 12, wrap width <= 68, feature columns 5/16/21, qualifier line = indent + /key=\"value\", ORIGIN 60 per line / 10 per block / number = index+1 right-aligned in 9, FEATURES header and // terminator constants, the spaces helper returns n spaces",
 		"TERM: location is the cached text when non-empty else BuildLocationString(SequenceLocation)",
-		"NOSHARED: Build and its helpers use no package-level mutable state (two Build results never share memory)",
+		"NOSHARED: Build and its helpers use no package-level mutable state and return their own buffer",
 		"WRAPPERS: Write = WriteFile(path, Build(x)) truncating; Read = Parse(ReadFile(path)); C01's and C02's rules are the read side",
 	}
-	c.Undec = []string{"equality of Parse(Build(x)) for all x (needs the undecided scanner of C01)", "that 68-column word-wrap followed by trim-and-rejoin is the identity on long metadata (depends on the text's own spacing)"}
+	c.Undec = []string{"equality of Parse(Build(x)) for all x (needs the undecided scanner of C01)", "that 68-column word-wrap followed by trim-and-rejoin is the identity on long metadata (depends on the text's own spacing)", "the relative order of sections when the writer is restructured"}
 	c.Trusted = []string{"github.com/mitchellh/go-wordwrap", "GenBank flat-file column conventions as encoded in rules_C03.go"}
 	c.floor("MAPORDER", 2)
-	c.floor("FIELDMAP-W", 14)
-	c.floor("LAYOUT", 6)
-	c.floor("TERM", 1)
+	c.floor("FIELDMAP-W", 12)
+	c.floor("LAYOUT", 5)
 	c.floor("WRAPPERS", 2)
 	c.floor("NOSHARED", 1)
 	w := c.W
 	build := w.fn("io/genbank", "Build")
-	bms := w.fn("io/genbank", "buildMetaString")
 	bfs := w.fn("io/genbank", "BuildFeatureString")
-	gws := w.fn("io/genbank", "generateWhiteSpace")
-	if build == nil || bms == nil || bfs == nil {
-		c.missing("FIELDMAP-W", "genbank.Build/buildMetaString/BuildFeatureString", "GenBank writer functions")
+	if build == nil || bfs == nil {
+		c.missing("FIELDMAP-W", "genbank.Build/BuildFeatureString", "exported GenBank writer functions")
 		return
 	}
-	for _, f := range []*ssa.Function{build, bms, bfs} {
+	fam := family(build)
+	for _, f := range fam {
 		c.useFn(f)
 	}
-	var reach []*ssa.Function
-	for _, f := range funcsSorted(reachable(build)) {
-		if inModule(f) && f.Blocks != nil {
-			reach = append(reach, f)
+	checkMapOrder(c, "MAPORDER", fam)
+	checkNoShared(c, "NOSHARED", "Build and helpers", fam, map[string]string{})
+	// the returned bytes come from a buffer this call allocated
+	{
+		tb := newTB(build)
+		ownBuf := unknown
+		for _, a := range resultAlts(tb, build, 0) {
+			t := a.T
+			if (t.isCall("(*bytes.Buffer).Bytes") || (t.Op == "conv" && len(t.Args) == 1)) && ownBuf != broken {
+				x := t.Args[0]
+				if x.isCall("(*strings.Builder).String") {
+					x = x.Args[0]
+				}
+				if al, ok := x.V.(*ssa.Alloc); ok && al.Parent() == build {
+					ownBuf = holds
+				} else if x.contains(func(y *Term) bool { return y.Op == "global" || y.isCall("(*sync.Pool).Get") }) {
+					ownBuf = broken
+				}
+			}
+		}
+		c.judge(ownBuf, "NOSHARED", "Build returns its own buffer", build.Pos(), "the result's memory is allocated by this call", "the returned bytes alias a buffer that outlives the call (pool / package state): a later Build overwrites an earlier result")
+	}
+
+	// ---------------- keyword writes across the family
+	// The metadata-line helper, by role: the module function called with the constant "DEFINITION".
+	var metaFn *ssa.Function
+	for _, f := range fam {
+		tb := newTB(f)
+		eachInstr(f, func(i ssa.Instruction) {
+			if cl, ok := i.(*ssa.Call); ok && len(cl.Call.Args) >= 2 {
+				if g := cl.Call.StaticCallee(); g != nil && inModule(g) && tb.T(cl.Call.Args[0]).isConst(`"DEFINITION"`) {
+					metaFn = g
+				}
+			}
+		})
+	}
+	type kwWrite struct {
+		kw   string
+		val  *Term
+		call *ssa.Call
+		tb   *TermBuilder
+		fn   *ssa.Function
+	}
+	var kws []kwWrite
+	dynamic := 0
+	if metaFn != nil {
+		for _, f := range fam {
+			tb := newTB(f)
+			eachInstr(f, func(i ssa.Instruction) {
+				cl, ok := i.(*ssa.Call)
+				if !ok || cl.Call.StaticCallee() != metaFn {
+					return
+				}
+				k, isC := tb.T(cl.Call.Args[0]).constStr()
+				v := tb.T(cl.Call.Args[1])
+				if !isC {
+					kt := tb.T(cl.Call.Args[0])
+					if kt.contains(func(x *Term) bool { return x.isField("Other") }) {
+						k = "<other>"
+					} else {
+						dynamic++
+						return
+					}
+				}
+				kws = append(kws, kwWrite{k, v, cl, tb, f})
+			})
 		}
 	}
-	checkMapOrder(c, "MAPORDER", reach)
-	checkNoShared(c, "NOSHARED", "Build and helpers", reach, map[string]string{})
-	// the spaces helper
-	spaces := func(n string) string { return "call[poly/io/genbank.generateWhiteSpace](" + n + ")" }
-	if gws != nil {
-		c.useFn(gws)
-		gtb := newTB(gws)
-		rt, _, ok := singleReturnTerm(gws, 0)
-		good := false
-		if ok && (rt.isCall("(*strings.Builder).String") || rt.isCall("(*bytes.Buffer).String")) {
-			ws := bufWrites(gws, gtb, rt.Args[0].String())
-			if len(ws) == 1 && ws[0].arg.isConst(`" "`) {
-				// in a counted loop i = 0..n-1
-				hdr := enclosingLoopHeader(ws[0].call.Block())
-				if hdr != nil {
-					if ifi, ok := hdr.Instrs[len(hdr.Instrs)-1].(*ssa.If); ok {
-						g := gtb.T(ifi.Cond)
-						if g.isBin("<") && g.Args[1].isParam(0) {
-							if ph, ok := g.Args[0].V.(*ssa.Phi); ok {
-								init0, step := false, false
-								for _, e := range ph.Edges {
-									et := gtb.T(e)
-									if et.isConst("0") {
-										init0 = true
-									} else if b, k := et.linear(); b != nil && b.V == ssa.Value(ph) && k == 1 {
-										step = true
-									}
-								}
-								good = init0 && step
-							}
+	if metaFn == nil || len(kws) == 0 {
+		c.undecided("FIELDMAP-W", "keyword lines", build.Pos(), "no helper called with constant GenBank keywords found in Build's family")
+	} else {
+		lastField := func(t *Term) (string, *Term) {
+			x := t
+			for x != nil && x.Op == "phi" && len(x.Args) == 1 {
+				x = x.Args[0]
+			}
+			if x != nil && x.Op == "field" {
+				return x.Name, x.Args[0]
+			}
+			return "", nil
+		}
+		wantKW := []struct{ kw, field, owner, name string }{
+			{"DEFINITION", "Definition", "Meta", "Definition"},
+			{"ACCESSION", "Accession", "Meta", "Accession"},
+			{"VERSION", "Version", "Meta", "Version"},
+			{"KEYWORDS", "Keywords", "Meta", "Keywords"},
+			{"SOURCE", "Source", "Meta", "Source"},
+			{"  ORGANISM", "Organism", "Meta", "Organism"},
+			{"  AUTHORS", "Authors", "Reference", "Reference.Authors"},
+			{"  TITLE", "Title", "Reference", "Reference.Title"},
+			{"  JOURNAL", "Journal", "Reference", "Reference.Journal"},
+			{"  PUBMED", "PubMed", "Reference", "Reference.PubMed"},
+			{"  REMARK", "Remark", "Reference", "Reference.Remark"},
+		}
+		refFields := map[string]bool{"Authors": true, "Title": true, "Journal": true, "PubMed": true, "Remark": true}
+		for _, wk := range wantKW {
+			var hit *kwWrite
+			for i := range kws {
+				if kws[i].kw == wk.kw {
+					hit = &kws[i]
+				}
+			}
+			key := wk.name + " written under " + strings.TrimSpace(wk.kw)
+			if hit == nil {
+				// a differently indented spelling of the same keyword is positive evidence
+				var near *kwWrite
+				for i := range kws {
+					if strings.TrimSpace(kws[i].kw) == strings.TrimSpace(wk.kw) {
+						near = &kws[i]
+					}
+				}
+				switch {
+				case near != nil:
+					c.bad("FIELDMAP-W", key, near.call.Pos(), fmt.Sprintf("the writer spells the keyword %q; the reader's dispatch needs %q (sub-keywords are indented by two spaces, top-level ones are not)", near.kw, wk.kw))
+				case dynamic == 0 && len(kws) >= 6:
+					c.bad("FIELDMAP-W", key, build.Pos(), fmt.Sprintf("the reader fills %s from the %q block but the writer, which emits %d other keyword lines, never emits this one: the value is lost by write-then-read", wk.name, strings.TrimSpace(wk.kw), len(kws)))
+				default:
+					c.undecided("FIELDMAP-W", key, build.Pos(), "no line with that constant keyword found (keywords may be written through a table)")
+				}
+				continue
+			}
+			fld, _ := lastField(hit.val)
+			stt := holds
+			why := ""
+			switch {
+			case fld == "":
+				stt, why = unknown, "the value written is "+short(hit.val.String())
+			case fld != wk.field:
+				stt, why = broken, fmt.Sprintf("keyword %q carries the field %s; the reader stores that block into %s", wk.kw, fld, wk.field)
+			}
+			if stt == holds {
+				// optional only on its own field
+				pc := pathCond(hit.tb, hit.fn.Blocks[0], hit.call.Block())
+				for _, a := range pc.atoms() {
+					a.Atom.walk(func(x *Term) {
+						if x.Op == "field" && refFields[x.Name] && x.Name != wk.field && wk.owner == "Reference" {
+							stt, why = broken, fmt.Sprintf("the %s line is written only under a condition on Reference.%s: it is dropped when that other field is empty", strings.TrimSpace(wk.kw), x.Name)
+						}
+					})
+				}
+			}
+			c.judge(stt, "FIELDMAP-W", key, hit.call.Pos(), "same keyword as the reader's case, value = the field, optional only on its own emptiness", why)
+		}
+		// REFERENCE header and Other
+		refSt, othSt := unknown, unknown
+		refWhy := "no REFERENCE line found"
+		for _, k := range kws {
+			if k.kw == "REFERENCE" {
+				ps, _ := k.tb.pieces(k.val)
+				refWhy = "REFERENCE line is " + short(piecesString(ps))
+				if len(ps) == 3 && ps[0].isCall("strconv.Itoa") && ps[2].isField("Range") {
+					bb, kk := ps[0].Args[0].linear()
+					if sep, ok := ps[1].constStr(); ok && strings.TrimSpace(sep) == "" && len(sep) >= 1 && bb != nil && bb.Op == "rangeidx" {
+						if kk == 1 {
+							refSt = holds
+						} else {
+							refSt, refWhy = broken, fmt.Sprintf("references are numbered from index%+d; GenBank numbers them from 1", kk)
 						}
 					}
 				}
 			}
-		}
-		c.check(good, "LAYOUT", "generateWhiteSpace(n) = n spaces", gws.Pos(), "one space per i = 0..n-1", "generateWhiteSpace does not return exactly n spaces")
-	} else {
-		c.missing("LAYOUT", "generateWhiteSpace", "genbank.generateWhiteSpace")
-	}
-
-	// ---------------- Build
-	tb := newTB(build)
-	rt, _, okR := singleReturnTerm(build, 0)
-	if !okR || !rt.isCall("(*bytes.Buffer).Bytes") {
-		c.bad("FIELDMAP-W", "Build:buffer", build.Pos(), "Build does not return the bytes of one local buffer (unrecognised shape)")
-		return
-	}
-	if a, ok := rt.Args[0].V.(*ssa.Alloc); !ok || a.Parent() != build {
-		c.bad("NOSHARED", "Build:own buffer", build.Pos(), "the returned bytes do not come from a buffer allocated by this call")
-	}
-	buf := rt.Args[0].String()
-	ws := bufWrites(build, tb, buf)
-	meta := "field[Meta](param[0])"
-	ref := "each(field[References](" + meta + "))"
-	type kwWrite struct {
-		kw, val string
-		wr      bufWrite
-	}
-	var kws []kwWrite
-	var consts []string
-	var constPos = map[string]int{}
-	var featIdx, locusIdx = -1, -1
-	for i, wr := range ws {
-		a := wr.arg
-		if a.isCall("poly/io/genbank.buildMetaString") {
-			k, _ := a.Args[0].constStr()
-			if k == "" {
-				k = "<" + a.Args[0].String() + ">"
+			if k.kw == "<other>" {
+				if k.val.Op == "lookup" && k.val.Args[0].isField("Other") && k.val.Args[1].String() == k.tb.T(k.call.Call.Args[0]).String() {
+					othSt = holds
+				}
 			}
-			kws = append(kws, kwWrite{k, a.Args[1].String(), wr})
-			continue
 		}
-		if s, ok := a.constStr(); ok {
-			consts = append(consts, s)
-			constPos[s] = i
-			continue
-		}
-		if a.isCall("poly/io/genbank.BuildFeatureString") {
-			featIdx = i
-			c.check(a.Args[0].String() == "each(field[Features](param[0]))", "FIELDMAP-W", "every feature written, in order", wr.call.Pos(), "BuildFeatureString(feature) for each feature of the sequence", "features written are "+short(a.Args[0].String()))
-			continue
-		}
-		if parts := a.sumTerms(); len(parts) > 3 && parts[0].isConst(`"LOCUS       "`) {
-			locusIdx = i
-			var flds []string
-			for _, p := range parts {
-				p.walk(func(x *Term) {
-					if x.Op == "field" && len(x.Args) == 1 && x.Args[0].String() == "field[Locus]("+meta+")" {
-						flds = append(flds, x.Name)
+		c.judge(refSt, "FIELDMAP-W", "REFERENCE header = ordinal + Range", build.Pos(), "REFERENCE <n>  <range> for every reference in order", refWhy)
+		c.judge(othSt, "FIELDMAP-W", "Other[keyword] written under its keyword", build.Pos(), "every extra keyword block is written back under its own key", "Meta.Other is not visibly written as helper(key, Other[key]) for every key")
+	}
+	// LOCUS line: all fields of Meta.Locus that are read somewhere in the family
+	{
+		used := map[string]bool{}
+		words := map[string]bool{}
+		for _, f := range fam {
+			tb := newTB(f)
+			eachInstr(f, func(i ssa.Instruction) {
+				if v, ok := i.(ssa.Value); ok {
+					t := tb.T(v)
+					if t.Op == "field" && len(t.Args) == 1 && t.Args[0].isField("Locus") {
+						used[t.Name] = true
 					}
-				})
-			}
-			sort.Strings(flds)
-			flds = dedupe(flds)
-			wantL := []string{"GenbankDivision", "ModificationDate", "MoleculeType", "Name", "SequenceLength"}
-			// shape: phi over "circular"/"linear" decided by Locus.Circular / Locus.Linear
-			shapeOK := a.contains(func(x *Term) bool { return x.isConst(`"circular"`) }) && a.contains(func(x *Term) bool { return x.isConst(`"linear"`) })
-			c.check(strings.Join(flds, ",") == strings.Join(wantL, ",") && shapeOK && parts[len(parts)-1].isConst(`"\n"`), "FIELDMAP-W", "LOCUS line carries name, length, molecule type, topology, division, date", wr.call.Pos(), "all six LOCUS items the reader extracts are written (SequenceCoding is the literal bp)", fmt.Sprintf("LOCUS line uses Locus fields %v (topology words present: %v)", flds, shapeOK))
-			c.check(parts[0].isConst(`"LOCUS       "`), "LAYOUT", "LOCUS keyword padded to 12 columns", wr.call.Pos(), "\"LOCUS\" + 7 spaces", "LOCUS keyword field is not 12 columns wide")
+					if s, ok := t.constStr(); ok && (s == "circular" || s == "linear") {
+						words[s] = true
+					}
+				}
+				for _, op := range i.Operands(nil) {
+					if op != nil && *op != nil {
+						if cst, ok := (*op).(*ssa.Const); ok {
+							if s, ok := tb.T(cst).constStr(); ok && (s == "circular" || s == "linear") {
+								words[s] = true
+							}
+						}
+					}
+				}
+			})
 		}
+		var missing []string
+		for _, f := range []string{"Name", "SequenceLength", "MoleculeType", "GenbankDivision", "ModificationDate"} {
+			if !used[f] {
+				missing = append(missing, f)
+			}
+		}
+		if !(used["Circular"] && words["circular"]) {
+			missing = append(missing, "Circular->\"circular\"")
+		}
+		if !(used["Linear"] && words["linear"]) {
+			missing = append(missing, "Linear->\"linear\"")
+		}
+		st := holds
+		if len(missing) > 0 {
+			st = broken
+			if len(used) == 0 {
+				st = unknown
+			}
+		}
+		c.judge(st, "FIELDMAP-W", "LOCUS line carries name, length, molecule type, topology, division, date", build.Pos(), "all LOCUS items the reader extracts are read by the writer (SequenceCoding is the literal bp)", "the writer never reads Locus."+strings.Join(missing, ", Locus.")+": that item is lost by write-then-read")
 	}
-	if locusIdx != 0 {
-		c.bad("FIELDMAP-W", "LOCUS line first", build.Pos(), "the LOCUS line is not the first thing written")
+	// every feature written
+	{
+		st := unknown
+		for _, f := range fam {
+			tb := newTB(f)
+			eachInstr(f, func(i ssa.Instruction) {
+				if cl, ok := i.(*ssa.Call); ok && cl.Call.StaticCallee() == bfs {
+					a := tb.T(cl.Call.Args[0])
+					if a.Op == "each" && a.Args[0].isField("Features") && inLoop(cl.Block()) {
+						hdr := enclosingLoopHeader(cl.Block())
+						if hdr != nil && len(hdr.Succs) == 2 && pathCond(tb, hdr.Succs[0], cl.Block()).Op == "true" {
+							st = holds
+						} else {
+							st = broken
+						}
+					}
+				}
+			})
+		}
+		c.judge(st, "FIELDMAP-W", "every feature written, in order", build.Pos(), "BuildFeatureString(feature) for each feature, unconditionally", "some features are skipped by the writer")
 	}
-	wantKW := []struct{ kw, val, name string }{
-		{"DEFINITION", "field[Definition](" + meta + ")", "Definition"},
-		{"ACCESSION", "field[Accession](" + meta + ")", "Accession"},
-		{"VERSION", "field[Version](" + meta + ")", "Version"},
-		{"KEYWORDS", "field[Keywords](" + meta + ")", "Keywords"},
-		{"SOURCE", "field[Source](" + meta + ")", "Source"},
-		{"  ORGANISM", "field[Organism](" + meta + ")", "Organism"},
-		{"  AUTHORS", "field[Authors](" + ref + ")", "Reference.Authors"},
-		{"  TITLE", "field[Title](" + ref + ")", "Reference.Title"},
-		{"  JOURNAL", "field[Journal](" + ref + ")", "Reference.Journal"},
-		{"  PUBMED", "field[PubMed](" + ref + ")", "Reference.PubMed"},
-		{"  REMARK", "field[Remark](" + ref + ")", "Reference.Remark"},
-	}
-	for _, wk := range wantKW {
-		var hit *kwWrite
-		for i := range kws {
-			if kws[i].kw == wk.kw {
-				hit = &kws[i]
-			}
-		}
-		if hit == nil {
-			c.bad("FIELDMAP-W", wk.name+" written under "+strings.TrimSpace(wk.kw), build.Pos(), fmt.Sprintf("the reader fills %s from the %q block but the writer never emits it: the value is lost by write-then-read", wk.name, strings.TrimSpace(wk.kw)))
-			continue
-		}
-		good := hit.val == wk.val
-		why := fmt.Sprintf("keyword %q carries %s; want %s", wk.kw, short(hit.val), wk.val)
-		// an optional line may depend only on its own field
-		pc := pathCond(tb, build.Blocks[0], hit.wr.call.Block())
-		for _, a := range pc.atoms() {
-			as := a.Atom.String()
-			if strings.HasPrefix(as, "binop[<](binop[+](const[1], phi") || strings.HasPrefix(as, "extract[0](next(range(") {
-				continue
-			}
-			if !strings.Contains(as, wk.val) {
-				good = false
-				why = fmt.Sprintf("the %q line is written only under the unrelated condition %s: it is dropped when another field is empty", strings.TrimSpace(wk.kw), short(as))
-			}
-		}
-		c.check(good, "FIELDMAP-W", wk.name+" written under "+strings.TrimSpace(wk.kw), hit.wr.call.Pos(), "same keyword as the reader's case, value = the field, optional only on its own emptiness", why)
-	}
-	// REFERENCE header and Other
-	var okRefHdr, okOther bool
-	for _, k := range kws {
-		if k.kw == "REFERENCE" {
-			okRefHdr = strings.HasPrefix(k.val, "binop[+](binop[+](call[strconv.Itoa](") && strings.HasSuffix(k.val, `const["  "]), field[Range](`+ref+`))`)
-		}
-		if strings.HasPrefix(k.kw, "<") {
-			keys := strings.TrimSuffix(strings.TrimPrefix(k.kw, "<"), ">")
-			okOther = strings.Contains(keys, "field[Other]("+meta+")") && k.val == "lookup(field[Other]("+meta+"), "+keys+")"
-		}
-	}
-	c.check(okRefHdr, "FIELDMAP-W", "REFERENCE header = ordinal + Range", build.Pos(), "REFERENCE <n>  <range> for every reference in order", "the REFERENCE line is not Itoa(index+1) + two spaces + reference.Range")
-	c.check(okOther, "FIELDMAP-W", "Other[keyword] written under its keyword", build.Pos(), "every extra keyword block is written back under its own key", "Meta.Other is not written as buildMetaString(key, Other[key]) for every key")
-	// constants and order
-	fh, hasFH := constPos["FEATURES             Location/Qualifiers\n"]
-	oh, hasOH := constPos["ORIGIN\n"]
-	tm, hasTM := constPos["\n//"]
-	okOrder := hasFH && hasOH && hasTM && featIdx >= 0
-	if okOrder {
-		FH, FE, OH, TM := ws[fh].call, ws[featIdx].call, ws[oh].call, ws[tm].call
-		okOrder = domInstr(FH, FE) && domInstr(FH, OH) && !reaches(OH.Block(), FE.Block()) && domInstr(OH, TM)
-		// nothing is written after the terminator
-		for _, wr := range ws {
-			if wr.call != TM && (domInstr(TM, wr.call) || reaches(TM.Block(), wr.call.Block())) {
-				okOrder = false
-			}
-		}
-	}
-	c.check(okOrder, "LAYOUT", "FEATURES header < features < ORIGIN < // terminator", build.Pos(), "section order and the \"//\" record terminator, nothing after it", fmt.Sprintf("section markers present: FEATURES=%v ORIGIN=%v //=%v; order/terminator-last ok=%v", hasFH, hasOH, hasTM, okOrder))
-	// ORIGIN blocks: conditions index%60==0, index%10==0; number right aligned in 9
-	idx := "extract[1](next(range(field[Sequence](param[0]))))"
-	var has60, has10, has9, hasNum, baseEvery bool
-	eachInstr(build, func(i ssa.Instruction) {
-		if ifi, ok := i.(*ssa.If); ok {
-			s := tb.T(ifi.Cond).String()
-			if s == "binop[==](binop[%]("+idx+", const[60]), const[0])" {
-				has60 = true
-			}
-			if s == "binop[==](binop[%]("+idx+", const[10]), const[0])" {
-				has10 = true
-			}
-			if strings.Contains(s, "binop[-](const[9], call[builtin:len](call[strconv.Itoa](binop[+](const[1], "+idx+"))))") {
-				has9 = true
-			}
-		}
-	})
-	nBase := 0
-	for _, wr := range ws {
-		if wr.arg.String() == "binop[+](call[strconv.Itoa](binop[+](const[1], "+idx+")), const[\" \"])" {
-			hasNum = true
-		}
-		if wr.arg.String() == "extract[2](next(range(field[Sequence](param[0]))))" {
-			nBase++
-		}
-	}
-	// each base is written exactly once on every path through the loop body: three mutually exclusive sites
-	baseEvery = nBase == 3
-	c.check(has60 && has10 && has9 && hasNum && baseEvery, "LAYOUT", "ORIGIN: 60 per line, 10 per block, 1-based number right-aligned in 9", build.Pos(), "line break and number every 60 bases, a space every 10, every base written once", fmt.Sprintf("60-per-line=%v 10-per-block=%v width-9=%v number=Itoa(index+1)=%v every-base-once=%v", has60, has10, has9, hasNum, baseEvery))
 
-	// ---------------- buildMetaString
-	mtb := newTB(bms)
-	mrt, _, okM := singleReturnTerm(bms, 0)
-	goodPad, goodIndent, goodWrap := false, false, false
-	var indentN int64 = -1
-	if okM {
-		eachInstr(bms, func(i ssa.Instruction) {
-			if ifi, ok := i.(*ssa.If); ok {
-				if strings.HasSuffix(mtb.T(ifi.Cond).String(), "binop[-](const[12], call[builtin:len](param[0])))") {
-					goodPad = true
-				}
-			}
-		})
-		mrt.walk(func(x *Term) {
-			if x.isCall("poly/io/genbank.generateWhiteSpace") {
-				if k, ok := x.Args[0].constInt(); ok {
-					indentN = k
-				}
-			}
-			if x.isCall("github.com/mitchellh/go-wordwrap.WrapString") {
-				if k, ok := x.Args[1].constInt(); ok && k <= 68 && x.Args[0].isParam(1) {
-					goodWrap = true
-				}
-			}
-		})
-		goodIndent = indentN == 12
-	}
-	c.check(goodPad, "LAYOUT", "keyword padded to column 12", bms.Pos(), "12 - len(keyword) spaces follow the keyword", "the keyword field is not padded to 12 columns")
-	c.check(goodIndent, "LAYOUT", "continuation lines indented by 12", bms.Pos(), "wrapped lines start in the data column", fmt.Sprintf("continuation lines are indented by %d spaces under a 12-column keyword field: a column-strict reader (line[12:]) loses the first letter of every wrapped line", indentN))
-	c.check(goodWrap, "LAYOUT", "wrap width <= 68", bms.Pos(), "12 + 68 = 80 columns", "metadata is not wrapped at <= 68 columns")
-
-	// ---------------- BuildFeatureString
-	frt, _, okF := singleReturnTerm(bfs, 0)
-	if !okF {
-		c.bad("LAYOUT", "feature lines", bfs.Pos(), "BuildFeatureString has several returns (unrecognised shape)")
-	} else {
-		var hdr, qual []*Term
-		for _, l := range phiLeaves(frt) {
-			parts := l.sumTerms()
-			if len(parts) >= 5 && parts[0].String() == spaces("const[5]") {
-				hdr = parts
-			} else {
-				// rec + (spaces(21) + "/" + k + "=\"" + v + "\"\n")
-				n := len(parts)
-				if n >= 6 {
-					qual = parts[n-6:]
-				}
+	// ---------------- LAYOUT: constants audit over the family (and the feature writer's family)
+	all := append([]*ssa.Function{}, fam...)
+	for _, f := range family(bfs) {
+		dup := false
+		for _, g := range all {
+			if g == f {
+				dup = true
 			}
 		}
-		okHdr := len(hdr) == 5 && hdr[1].String() == "field[Type](param[0])" && hdr[2].String() == spaces("binop[-](const[16], call[builtin:len](field[Type](param[0])))") && hdr[4].isConst(`"\n"`)
-		c.check(okHdr, "LAYOUT", "feature key at column 5, location at column 21", bfs.Pos(), "5 spaces + key + (16-len(key)) spaces + location", "the feature header line is not 5 spaces + Type padded to 16 + location + newline")
-		okLoc := false
-		if len(hdr) == 5 {
+		if !dup {
+			all = append(all, f)
+			c.useFn(f)
+		}
+	}
+	audit := newLayoutAudit(c, all)
+	audit.report(c, build, metaFn)
+
+	// ---------------- TERM: cached-or-built location
+	{
+		ftb := newDeepTB(bfs, "poly/io/genbank.BuildLocationString")
+		st := unknown
+		why := "no value selected between the cached location text and BuildLocationString found"
+		eachInstr(bfs, func(i ssa.Instruction) {
+			ph, ok := i.(*ssa.Phi)
+			if !ok || !isStringType(ph.Type()) || isCyclicPhi(ph) {
+				return
+			}
 			var lv []string
-			for _, l := range phiLeaves(hdr[3]) {
+			for _, l := range phiLeaves(ftb.T(ph)) {
 				lv = append(lv, l.String())
 			}
 			sort.Strings(lv)
-			okLoc = len(lv) == 2 && lv[0] == "call[poly/io/genbank.BuildLocationString](field[SequenceLocation](param[0]))" && lv[1] == "field[GbkLocationString](param[0])"
-			// the cached text is used exactly when non-empty
-			if ph, ok := hdr[3].V.(*ssa.Phi); ok && okLoc {
-				ftb := newTB(bfs)
-				for i, e := range ph.Edges {
-					pc := pathCond(ftb, bfs.Blocks[0], ph.Block().Preds[i])
+			if len(lv) == 2 && lv[0] == "call[poly/io/genbank.BuildLocationString](field[SequenceLocation](param[0]))" && lv[1] == "field[GbkLocationString](param[0])" {
+				st = holds
+				for k, e := range ph.Edges {
+					pc := pathCond(ftb, bfs.Blocks[0], ph.Block().Preds[k])
 					cached := ftb.T(e).String() == "field[GbkLocationString](param[0])"
-					if cached != pc.implies(`binop[!=](const[""], field[GbkLocationString](param[0]))`, false) {
-						okLoc = false
+					if cached && pc.implies(`binop[!=](const[""], field[GbkLocationString](param[0]))`, true) {
+						st, why = broken, "the cached location text is used when it is empty and ignored when present"
 					}
 				}
 			}
-		}
-		c.check(okLoc, "TERM", "location = cached text if non-empty else BuildLocationString(SequenceLocation)", bfs.Pos(), "a programmatically built feature gets its location printed from the structure", "the location column is not {GbkLocationString when non-empty, else BuildLocationString(SequenceLocation)}")
-		okQ := len(qual) == 6 && qual[0].String() == spaces("const[21]") && qual[1].isConst(`"/"`) && qual[3].isConst(`"=\""`) && qual[5].isConst(`"\"\n"`) && qual[4].Op == "lookup" && qual[4].Args[0].String() == "field[Attributes](param[0])" && qual[4].Args[1].String() == qual[2].String()
-		c.check(okQ, "LAYOUT", "qualifier line = 21 spaces + /key=\"value\"", bfs.Pos(), "one line per qualifier, value quoted, from Attributes[key]", "qualifier lines are not 21 spaces + \"/\" + key + \"=\\\"\" + Attributes[key] + \"\\\"\\n\"")
+		})
+		c.judge(st, "TERM", "location = cached text if non-empty else BuildLocationString(SequenceLocation)", bfs.Pos(), "a programmatically built feature gets its location printed from the structure", why)
 	}
 	// ---------------- WRAPPERS
-	checkReturnIs(c, "WRAPPERS", "Read", w.fn("io/genbank", "Read"), 0, "call[poly/io/genbank.Parse](extract[0](call[io/ioutil.ReadFile](param[0])))", "Read(path) = Parse(ReadFile(path))")
+	checkReturnIs(c, "WRAPPERS", "Read", w.fn("io/genbank", "Read"), 0, "call[poly/io/genbank.Parse](extract[0](call[os.ReadFile](param[0])))", "Read(path) = Parse(ReadFile(path))")
 	checkFileWrite(c, "WRAPPERS", "Write", w.fn("io/genbank", "Write"), 1, "call[poly/io/genbank.Build](param[0])")
 }
